@@ -113,6 +113,16 @@ def generate(rng, tier, index):
                    "headers": [[hx(b"User-Agent"), hx(b"UA/1.0")]] if rng.random() < 0.6 else [],
                    "params": [[hx(b"z"), hx(b"1")]] if rng.random() < 0.3 else [],
                    "body": hx(rng.choice([b"", b"", b"old-body"]))}
+        if prog != "server" and rng.random() < 0.3:
+            # the request handed in already carries a header / parameter of a name the program decorates statically (with
+            # another value): what the program prescribes is what has to be on the wire
+            for st in cfg[prog]:
+                if st[0] == "_header":
+                    k = bytes.fromhex(st[1]).partition(b": ")[0]
+                    initial["headers"] = initial["headers"] + [[hx(k), hx(b"stale-value")]]
+                elif st[0] == "_parameter":
+                    k = bytes.fromhex(st[1]).partition(b"=")[0]
+                    initial["params"] = initial["params"] + [[hx(k), hx(b"stale")]]
         nm = sum(1 for s in cfg[prog] if s[0] == "mask")
         msgs.append({"prog": prog, "values": vals, "initial": initial,
                      "mask_keys": [hx(struct.pack(">I", rng.getrandbits(32))) for _ in range(nm)],
